@@ -15,11 +15,15 @@ from dw.monitors import V
 PROP = "C05"
 
 
-def _mk_update(uid: str, size: int):
+GLYPH_WIRE = {"p": 1, "\u00e9": 6, "\u6f22": 6, "\U0001F600": 12}  # bytes per character in the request body (JSON escapes non-ASCII)
+
+
+def _mk_update(uid: str, size: int, glyph: str = "p"):
+    """An update whose payload takes about `size` bytes in the request body."""
     from aws_durable_execution_sdk_python.identifier import OperationIdentifier
     from aws_durable_execution_sdk_python.lambda_service import OperationUpdate
 
-    return OperationUpdate.create_step_succeed(OperationIdentifier(uid, None, uid), payload="p" * size)
+    return OperationUpdate.create_step_succeed(OperationIdentifier(uid, None, uid), payload=glyph * max(1, size // GLYPH_WIRE[glyph]))
 
 
 class RecClient:
@@ -106,6 +110,7 @@ def trial(case):  # noqa: C901, PLR0912, PLR0915
     pstate: dict[int, str] = {}
     sync_returns = []  # (uid, delivered_len_after_return, handover_index)
     plans = case["plans"]
+    glyphs = case.get("glyphs") or ["p"]
     start = threading.Barrier(len(plans))
 
     def producer(pi, plan):
@@ -113,7 +118,7 @@ def trial(case):  # noqa: C901, PLR0912, PLR0915
         start.wait()
         for j, (size, sync, pause) in enumerate(plan):
             uid = "p%d-%d" % (pi, j)
-            upd = None if size is None else _mk_update(uid, size)
+            upd = None if size is None else _mk_update(uid, size, glyphs[(pi + j) % len(glyphs)])
             if pause:
                 time.sleep(pause)
             pstate[pi] = "in-call:%s:%s" % (uid, "sync" if sync else "async")
@@ -262,7 +267,8 @@ def cases(tier, seed):
             plans.append(plan)
         fail_at = rng.randrange(0, 4) if i % 6 == 5 else None
         yield {"label": "batcher", "seed": seed * 1000003 + i, "max_bytes": max_bytes, "max_ops": max_ops, "window": window,
-               "latency": latency, "plans": plans, "fail_at": fail_at, "perturb": rng.choice(["none", "none", "yield"])}
+               "latency": latency, "plans": plans, "fail_at": fail_at, "perturb": rng.choice(["none", "none", "yield"]),
+               "glyphs": rng.choice([["p"], ["p"], ["\u00e9"], ["p", "\u6f22"], ["\U0001F600", "p", "\u00e9"]])}
 
 
 def run_case(case):
@@ -285,14 +291,16 @@ def run_case(case):
         hits = 0
     for v in viol:
         v["case"] = case
-    cls = "prod%d|ops%d|bytes%d|win%s|lat%s|%s|over%d|fail%s" % (len(case["plans"]), case["max_ops"], case["max_bytes"], case["window"], case["latency"],
-                                                          case["perturb"], min(st["oversize"], 2), case.get("fail_at") is not None)
+    cls = "prod%d|ops%d|bytes%d|win%s|lat%s|%s|over%d|fail%s|%s" % (len(case["plans"]), case["max_ops"], case["max_bytes"], case["window"], case["latency"],
+                                                             case["perturb"], min(st["oversize"], 2), case.get("fail_at") is not None,
+                                                             "ascii" if (case.get("glyphs") or ["p"]) == ["p"] else "non-ascii")
     return {"execs": 1, "classes": {cls} if st["calls"] else set(), "violations": viol,
             "interleavings": {"%s" % (hash((st["calls"], st["delivered"], cls)) & 0xFFFFFFFF)},
             "obs": {"api_calls": st["calls"], "updates_delivered": st["delivered"], "handover_hook_attached": 1 if st["attached"] else 0,
                     "oversize_updates": st["oversize"], "inconclusive_trials": 1 if verdict == "inconclusive" else 0, "yield_hits": hits,
                     "failure_injected": 1 if case.get("fail_at") is not None else 0,
-                    "targeted_lost_wakeup_order_achieved": st["targeted"]},
+                    "targeted_lost_wakeup_order_achieved": st["targeted"],
+                    "trials_with_non_ascii_payloads": 0 if (case.get("glyphs") or ["p"]) == ["p"] else 1},
             "sample": {"label": "batcher", "producers": len(case["plans"]), "max_ops": case["max_ops"], "max_bytes": case["max_bytes"],
                        "window": case["window"], "plan0": case["plans"][0][:5], "calls": st["calls"], "delivered": st["delivered"]}}
 
